@@ -345,7 +345,7 @@ def rule_E1(tree: Tree) -> RuleResult:
         # … directly: nothing that can fail (frame parsing, frame handling) may stand between authentication and the update, or an authenticated packet
         # whose frames raise would not count as processed
         succ = [x for x in cfgd.successors(a_n, False)]
-        upd_ok = cfgd.dominates(a_n, u_n) and a_n != u_n and succ == [u_n] and [src(a) for a in upd[0].args] == ["quic_packet", "int.from_bytes(packet_number, 'big', signed=False)"]
+        upd_ok = cfgd.dominates(a_n, u_n) and a_n != u_n and succ == [u_n] and [src(a) for a in upd[0].args] == ["quic_packet", "int.from_bytes(packet_number, 'big')"]
         detail = "the update must be the statement right after the AEAD call and carry the reconstructed number"
     if upd_ok:
         sl = tree.cls("quic.quic_session", "QuicSession").methods.get("set_largest_packet_number")
